@@ -29,6 +29,8 @@ func checkC17(c *Check) {
 	ruleDirectWrite(c, p, "R17.7")
 	ruleBuffersRefetched(c, p, "R17.8", "Writer", "Reader", "CompressingReader")
 	ruleStreamFieldsRearmed(c, p, "R17.9")
+	rulePendingConsumedOnce(c, p, "R17.12")
+	c.RuleDoc["R17.12"] = "pending bytes are emitted once and before anything submitted later (= R02.13)"
 	ruleNestedRearm(c, p, "R17.11")
 	c.RuleDoc["R17.11"] = "struct-valued fields re-initialised through their own method are re-initialised completely"
 	ruleInitTransition(c, p, "R17.10")
@@ -83,5 +85,5 @@ func ruleInitTransition(c *Check, p *Program, rule string) {
 			}
 		}
 	}
-	c.Cond(n >= 5, rule, "init-call-sites", "", "the lazy initialisation sites were found", fmt.Sprintf("%d call sites of init", n), fmt.Sprintf("only %d call sites of Writer.init/Reader.init found (expected at least 5)", n))
+	c.Cond(n >= 2, rule, "init-call-sites", "", "the lazy initialisation sites were found", fmt.Sprintf("%d call sites of init", n), fmt.Sprintf("only %d call sites of Writer.init/Reader.init found (expected at least one per object)", n))
 }
